@@ -64,10 +64,12 @@ impl DebugServer {
 
     pub fn join(self) -> MosResult<()> {
         self.shutdown.store(true, Ordering::Relaxed);
-        self.thread
-            .unwrap()
-            .join()
-            .expect("Could not join debugger thread");
+        // The thread has printed what happened to it; how the debugger fared is not the language server's exit status
+        if let Some(thread) = self.thread {
+            if thread.join().is_err() {
+                log::error!("The debugger thread has panicked.");
+            }
+        }
         Ok(())
     }
 }
